@@ -1,2 +1,9 @@
 import PieModel.Props.C06
-#print axioms PieModel.C06_placeholder
+
+#print axioms PieModel.C06_write_overlap_abort
+#print axioms PieModel.C06_write_overlap_eq
+#print axioms PieModel.C06_wrote_overlap_abort
+#print axioms PieModel.C06_overlap_iff
+#print axioms PieModel.C06_wrote_overlap_iff
+#print axioms PieModel.C06_overlap_before_hidden
+#print axioms PieModel.C06_no_writer_no_overlap
